@@ -19,6 +19,7 @@ def check(tree, rep, tier='quick', seed=0):
     rep.assumptions = ['NOT decided: what pdftk does with the form data; non-ASCII text']
     core = get_core(tree)
     R.k36_mutable_defaults_untouched(core, rep)   # nothing survives from one solve / fill to the next through a default argument
+    R.k40_state_belongs_to_the_instance(core, rep)   # ... nor through a table written in a class body
     R.k23_filler(core, rep)
     R.k23f_filling_keeps_no_state(core, rep)
     R.k23g_box_value_set_in_every_round(core, rep)
@@ -83,6 +84,8 @@ def check(tree, rep, tier='quick', seed=0):
             ok = jn == want and (not others or others == {jn} or jn == want)
             rep.ob('R19.9', f'{y}/{fname}/jurisdiction', jn == want,
                    f'{y} {fname} declares jurisdiction {jn}; its name and the other years ({sorted(others)}) say {want}: it is filed among the forms of the wrong return', fr.where)
+    n_dec = filing_decisions_agree(an, rep)
+    rep.floor('decisions that a needs_filing() recomputes and a line of the return makes as well', n_dec, 3)
     rep.floor('form classes with needs_filing class rules', n, 60)
     rep.floor('core rule obligations', sum(v[0] for k, v in rep.rules.items() if k.startswith('K')), 15)
 
@@ -114,3 +117,113 @@ def _is_text(e):
     if e.op == 'slice':
         return _is_text(e.args[0])
     return False
+
+
+# ---------------------------------------------------------------- R19.11 a schedule is filed exactly when the return uses it
+_CMP = {'lt': lambda a, b: a < b, 'le': lambda a, b: a <= b, 'gt': lambda a, b: a > b, 'ge': lambda a, b: a >= b}
+
+
+def _cmp_nodes(v, out):
+    from ..lineabs import E
+    if isinstance(v, E):
+        if v.op in _CMP and len(v.args) == 2:
+            out.append(v)
+        for a in v.args:
+            _cmp_nodes(a, out)
+    elif isinstance(v, (list, tuple)):
+        for a in v:
+            _cmp_nodes(a, out)
+
+
+def _term(an, year, e, depth=0):
+    """an amount as a term over line atoms: a line whose whole definition is max/min of two amounts is replaced by it"""
+    from ..lineabs import E
+    if isinstance(e, E) and e.op == 'v' and isinstance(e.args[0], str) and depth < 2:
+        f, _, nme = e.args[0].rpartition('.')
+        d = an.defs.get((year, f, nme))
+        if d is not None and len(d.paths) == 1 and not d.paths[0].guards and d.paths[0].outcome.kind == 'ret':
+            val = d.paths[0].outcome.value
+            if isinstance(val, E) and val.op in ('max', 'min') and len(val.args) == 2:
+                return (val.op, _term(an, year, val.args[0], depth + 1), _term(an, year, val.args[1], depth + 1))
+        return ('atom', e.args[0])
+    if isinstance(e, E) and e.op in ('max', 'min') and len(e.args) == 2:
+        return (e.op, _term(an, year, e.args[0], depth + 1), _term(an, year, e.args[1], depth + 1))
+    if isinstance(e, E) and e.op == 'i':
+        return ('atom', 'i:' + str(e.args[0]))
+    return None
+
+
+def _atoms_of(t, out):
+    if t is None:
+        out.add(None)
+    elif t[0] == 'atom':
+        out.add(t[1])
+    else:
+        _atoms_of(t[1], out)
+        _atoms_of(t[2], out)
+
+
+def _val(t, env):
+    if t[0] == 'atom':
+        return env[t[1]]
+    a, b = _val(t[1], env), _val(t[2], env)
+    return max(a, b) if t[0] == 'max' else min(a, b)
+
+
+def _table(cmp_node, an, year):
+    """(the two amounts compared, the truth of the comparison for first < second, ==, >) - None when it is not a comparison of
+    exactly two line amounts"""
+    l, r = _term(an, year, cmp_node.args[0]), _term(an, year, cmp_node.args[1])
+    ats = set()
+    _atoms_of(l, ats)
+    _atoms_of(r, ats)
+    if None in ats or len(ats) != 2:
+        return None
+    p, q = sorted(ats)
+    tab = tuple(_CMP[cmp_node.op](_val(l, {p: 0, q: s_}), _val(r, {p: 0, q: s_})) for s_ in (-1, 0, 1))
+    return (p, q), tab
+
+
+def filing_decisions_agree(an, rep):
+    """A needs_filing() that works a decision out again (`line 10 > standard deduction`) instead of reading the line that made it
+    must come to the same answer as that line for every order of the two amounts - equal amounts included: otherwise the
+    return says "standard deduction" while the itemized-deductions schedule is filled and attached (or the other way
+    round).  Lines defined as max/min of two amounts are seen through."""
+    n = 0
+    for nf in an.filing:
+        mine = []
+        for p in nf.paths:
+            for (c, _pol, _n, _r) in p.guards:
+                _cmp_nodes(c, mine)
+            if p.outcome.kind == 'ret':
+                _cmp_nodes(p.outcome.value, mine)
+        tabs = {}
+        for c in mine:
+            t = _table(c, an, nf.year)
+            if t is not None and len(set(t[1])) > 1:
+                tabs[t[0]] = (t[1], c)
+        if not tabs:
+            continue
+        for (y, f, nme), d in sorted(an.defs.items()):
+            if y != nf.year:
+                continue
+            theirs = []
+            for p in d.paths:
+                for (c, _pol, _n, _r) in p.guards:
+                    _cmp_nodes(c, theirs)
+                if p.outcome.kind == 'ret':
+                    _cmp_nodes(p.outcome.value, theirs)
+            seen = set()
+            for c in theirs:
+                t = _table(c, an, y)
+                if t is None or t[0] not in tabs or len(set(t[1])) == 1 or (t[0], t[1]) in seen:
+                    continue
+                seen.add((t[0], t[1]))
+                n += 1
+                ref, cref = tabs[t[0]]
+                same = t[1] == ref or t[1] == tuple(not x for x in ref)
+                rep.ob('R19.11', f'{nf.key}~{d.key}/{t[0][0]}~{t[0][1]}', same,
+                       f'{nf.key} decides whether the form is filed with `{cref!r}`; {d.key} decides the same question with `{c!r}`: the two disagree when the amounts are '
+                       f'{"equal" if (t[1][0] == ref[0]) == (t[1][2] == ref[2]) else "in one of the two orders"} '
+                       f'(truth when {t[0][1]} is below, equal to, above {t[0][0]}: {ref} against {t[1]}) - the return then says one thing and the set of filed forms another', nf.where)
+    return n
